@@ -784,7 +784,9 @@ func runCheck(id, tier string) int {
 		m.Traces += pm.Traces
 		m.Samples = append(m.Samples, pm.Samples...)
 		m.Violations = append(m.Violations, pm.Violations...)
-		m.Exhaustive = m.Exhaustive && pm.Exhaustive
+		if !sm.RaceBuild { // a sampling adjunct does not change what the exhaustive parts covered
+			m.Exhaustive = m.Exhaustive && pm.Exhaustive
+		}
 		m.Notes = append(m.Notes, pm.Notes...)
 		for k, v := range pm.Counters {
 			m.Counters[sub+":"+k] += v
